@@ -191,6 +191,13 @@ theorem notification_lost_on_failed_refresh_old (st : State) :
     (evGithubFailedOld (evFlag st .github)).githubChanged = false := rfl
 example (st : State) : (evGithubFailed (evFlag st .github)).githubChanged = true := rfl
 
+/-- AMBIGUOUS MERGE OUTCOME: after a merge request whose answer was lost, CI has forgotten the target and remembers that GitHub
+changed — so no further merge request is sent (by any later heal+merge block, with any answers) until a GitHub refresh has happened.
+(Before commit 62ab96f93 the step changed nothing, `evMergeLostOld`; replayed on the real code by corpus/c30/14-…json.) -/
+theorem lost_merge_response_blocks_merges (st : State) (a : Answers) (n : Nat) (sha : Sha) (ok : Bool) :
+    (evMergeLost st).githubChanged = true ∧ Out.merge n sha ok ∉ (evHeal (evMergeLost st) a).2 :=
+  ⟨rfl, no_target_no_merge (evMergeLost st) a rfl n sha ok⟩
+
 /-! ## "its test batch ran against the target branch's current commit" -/
 
 /-- FULL STATEMENT: a PR is merged only if the batch service has a SUCCESSFUL test batch of its head commit against the target
